@@ -39,6 +39,14 @@ CHECKS = {
              ref="§5 C13", note="loop model: the client's next message is delivered when the relay is idle; stored-query body stubbed by its contract (events then one sentinel). "),
  "C19": dict(text="One symbolic parsed message (8 heads x 32 JSON values of every type x 6 x arity, or a bare value) in 3 handler modes, followed by a probe REQ and a disconnect, next to a second connection: no exception escapes, the probe is answered or the socket closed, only protocol frames are sent, registry and tasks cleaned up, the other connection untouched.",
              ref="§5 C19", note="raw text -> JSON (rapidjson) assumed to return a JSON value or raise JSONDecodeError; sizes/nesting depth are resource questions outside. "),
+ "C07": dict(text="LMDB writer with the engine failing at a symbolic mutation inside the application of an event (regular, replacing, parameterised-replacing, deleting, ephemeral scenarios): the store equals exactly the state before the event, the next queued task is applied completely, a fault inside the next task leaves it all-or-nothing.",
+             ref="§5 C07", note="ONLY the injected-engine-error half of the property: a transaction of the engine is assumed atomic (contract model); process kill, reopen, torn pages and fsync are behaviour of liblmdb/SQLite behind FFI and the file system and cannot be encoded (DESIGN §6) – that half is not claimed. SQL side: see evidence. "),
+ "C11": dict(text="LMDB end to end (real planner, scanner, generated matcher): the answer to a filter is unchanged by storing a non-matching neighbour (adjacent kind, extending/prefixing tag value, equal timestamp with smaller/larger id, other author), narrower filters return subsets, multi-value answers equal the union of single-value answers.",
+             ref="§5 C11", note="stores of 1-2 events + 1 neighbour on the lmdb contract model; SQL side follows from the row-wise WHERE predicate (see evidence for what is included). "),
+ "C12": dict(text="LMDB end to end: stores of 2 symbolic events, 6 filter shapes (all indexes incl. chained and composite), symbolic limit: never more than the limit, everything returned matches, nothing twice, nothing missing when under the limit, nothing newer left out (per-value scan order of multi-value filters is a recorded known finding); client limits are capped by max_limit for every limit up to 10^9.",
+             ref="§5 C12", note="lmdb contract model; generated matcher via holes; SQL LIMIT/ORDER BY: see evidence. "),
+ "C17": dict(text="LMDB garbage-collection pass over stores of 2 events with expiration values around T (T-1, T, T+1, far future, malformed, empty, fewer digits) for T in {1700000000, 1000, 999, 2000000000}: exactly the expired events are removed with all index entries; ephemeral kinds are broadcast but never queued for storage (symbolic kind around both range ends); the periodic driver survives collector exceptions.",
+             ref="§5 C17", note="lmdb contract model; the SQL collector is one fixed DELETE statement whose relational meaning is SQLite/Postgres behaviour (outside; see DESIGN). "),
 }
 NA = {}
 def main():
